@@ -65,7 +65,16 @@ func (v *Verifier) evalCall(fr *Frame, st *State, x *ast.CallExpr) Val {
 			a := v.evalSpec(fr, st, x.Args[0]).(SliceVal)
 			b := v.evalSpec(fr, st, x.Args[1]).(SliceVal)
 			return Scalar{c.And(c.Eq(a.Ref, b.Ref), c.Eq(a.Off, b.Off), c.Eq(a.Len, b.Len)), types.Typ[types.Bool]}
-		case "fresh": // fresh(s): the backing array of s was allocated during this call
+		case "fresh": // fresh(s): the backing array of s / the object p points to was allocated during this call
+			if pv, ok := v.evalSpec(fr, st, x.Args[0]).(PtrVal); ok {
+				if pv.Loc != nil {
+					return Scalar{c.True(), types.Typ[types.Bool]}
+				}
+				if v.assumingEnsures > 0 && !pv.Ref.IsConst() && !pv.Ref.open {
+					return Scalar{c.And(c.Not(pv.Nil), c.Eq(pv.Ref, v.freshRef(st))), types.Typ[types.Bool]}
+				}
+				return Scalar{c.And(c.Not(pv.Nil), c.ILt(c.Inti(0), pv.Ref)), types.Typ[types.Bool]}
+			}
 			a := v.evalSpec(fr, st, x.Args[0]).(SliceVal)
 			if v.assumingEnsures > 0 && !a.Ref.IsConst() && !a.Ref.open {
 				// a callee-allocated array: pin it to a new concrete reference on the caller's side
@@ -166,7 +175,13 @@ func (v *Verifier) evalCall(fr *Frame, st *State, x *ast.CallExpr) Val {
 		}
 		sig := f.Fn.Type().(*types.Signature)
 		var args []Val
-		if len(x.Args) == 1 && sig.Params().Len() > 1 {
+		isTuple := false
+		if len(x.Args) == 1 {
+			if tv, ok := info.Types[x.Args[0]]; ok {
+				_, isTuple = tv.Type.(*types.Tuple)
+			}
+		}
+		if len(x.Args) == 1 && sig.Params().Len() > 1 && isTuple {
 			// f(g()) with multi-value g
 			t := v.eval(fr, st, x.Args[0])
 			tv, ok := t.(TupleVal)
@@ -325,6 +340,13 @@ func (v *Verifier) evalQuant(fr *Frame, st *State, x *ast.CallExpr, forall bool)
 }
 
 func (v *Verifier) ghostApp(fr *Frame, st *State, f GhostFn, x *ast.CallExpr) Val {
+	if strings.HasSuffix(f.Name, ".ufAESOfLabel") {
+		// the AES-128 cipher whose key is the 16 big-endian bytes of a label
+		c := v.eng.C
+		l := v.eval(fr, st, x.Args[0]).(StructVal)
+		id := c.App("ufAESKey128", IntSort, c.Concat(l.F[0].(Scalar).T, l.F[1].(Scalar).T))
+		return OpaqueVal{Sh: v.eng.shapeOf(f.Sig.Results().At(0).Type()), ID: id, Nil: c.False()}
+	}
 	if strings.HasSuffix(f.Name, ".ufKS") {
 		// keystream byte of a cipher.Stream: the symbol of the XORKeyStream model
 		c := v.eng.C
@@ -336,9 +358,7 @@ func (v *Verifier) ghostApp(fr *Frame, st *State, f GhostFn, x *ast.CallExpr) Va
 		// the block cipher of a key: the same symbol as the model of aes.NewCipher
 		c := v.eng.C
 		key := v.eval(fr, st, x.Args[0]).(SliceVal)
-		rows := v.eng.heapRows(st, v.eng.shapeOf(types.Typ[types.Uint8]), key.Ref)
-		id := c.App("ufAESKey", IntSort, rows[0], key.Off, key.Len)
-		return OpaqueVal{Sh: v.eng.shapeOf(f.Sig.Results().At(0).Type()), ID: id, Nil: c.False()}
+		return OpaqueVal{Sh: v.eng.shapeOf(f.Sig.Results().At(0).Type()), ID: v.aesKeyID(st, key), Nil: c.False()}
 	}
 	if strings.HasSuffix(f.Name, ".ufAESLabel") {
 		// the AES block function on labels: the same symbol as the model of cipher.Block.Encrypt
